@@ -53,6 +53,8 @@ func assumeOf(fs ...func(ssa.Value) (bool, bool)) func(ssa.Value) (bool, bool) {
 
 func c09(r *Run) {
 	w := r.W
+	r.optionPlumbed("C09.R1:onconnect-option-installed", "the OnConnect callback configured on the event loop is the one installed on its connections", "WithOnConnect", "(*connection).SetOnConnect")
+	r.optionPlumbed("C09.R1:ondisconnect-option-installed", "the OnDisconnect callback configured on the event loop is the one installed on its connections", "WithOnDisconnect", "(*connection).SetOnDisconnect")
 	ro := r.roles()
 	px := protoEffects(w)
 	onPrepare := w.MustFn("(*connection).onPrepare")
@@ -304,6 +306,24 @@ func c09(r *Run) {
 	}) {
 		r.neverReach("C09.R5:task-disconnect-before-callbacks:"+siteKey(w, site), "in the task no close-callback run precedes an OnDisconnect delivery", ro.task, site, startsAfter(findIns(ro.task, func(i ssa.Instruction) bool { return isCall(i, ro.closeCallback) })),
 			isIns(site), nil, nil, nil, "not reachable from a closeCallback call")
+	}
+	// the handler task (and its panic path) can reach the close callbacks as soon as closeBy(poller) is visible - before the
+	// hang-up goroutine has got to its onDisconnect() call: unless the closer is the user, the task makes sure itself that
+	// OnDisconnect was delivered before it runs them
+	{
+		statusCall := isCallOf(ro.status, ro.kClosing)
+		byUser := anyAtom(cmpAtom(statusCall, isConstEq(ro.whoUser), eqRel), cmpAtom(statusCall, isConstEq(ro.whoPoller), neqRel), callResultAtom(ro.isCloseBy, true, ro.whoUser))
+		for _, fn := range []*ssa.Function{ro.task, ro.taskPanic} {
+			if fn == nil {
+				continue
+			}
+			for _, site := range findIns(fn, func(i ssa.Instruction) bool { return isCall(i, ro.closeCallback) }) {
+				ss := &Search{Fn: fn, Stop: func(i ssa.Instruction) bool { return isCall(i, ro.onDisconnectM) }, CutEdge: cutOn(byUser)}
+				wit := ss.Find([]Start{Entry(fn)}, isIns(site), false)
+				r.Visited += ss.Visited
+				r.obW("C09.R5:task-ensures-disconnect-before-callbacks:"+siteKey(w, site), "when the handler task (or its panic path) runs the close callbacks of a connection the peer closed, it has called onDisconnect() first: the hang-up goroutine marks the connection closed before it delivers OnDisconnect, so a handler returning in between would otherwise run the close callbacks first and OnDisconnect would start after them", fn, site, wit, "onDisconnect() on every non-user-close path to the callbacks")
+			}
+		}
 	}
 	_ = fmt.Sprint
 }
